@@ -194,6 +194,11 @@ func (fr *Frame) applyContract(st *State, site ssa.Instruction, c *Contract, fn 
 	case 1:
 		result = mkRes(0, res.At(0).Type())
 		vars["result"] = result
+		if n := res.At(0).Name(); n != "" && n != "_" {
+			if _, clash := vars[n]; !clash {
+				vars[n] = result
+			}
+		}
 	default:
 		es := make([]Value, res.Len())
 		for i := range es {
